@@ -70,6 +70,10 @@ def py_value(tok):
 def impl_decsetenc(cls, payload, name, vtok, style=0):
     """style 0: frame.f.<name> = v; 1: frame.get(name).value = v; 2: frame.f.get(name).value = v"""
     fr = cls.construct(bytearray(payload))
+    # read-modify-write as an application does it: the payload is re-encoded first (the "before"), kept, and compared later
+    fr.pack()
+    before = fr.data
+    snap = bytes(before)
     if style == 0:
         setattr(fr.f, name, py_value(vtok))
     elif style == 1:
@@ -77,6 +81,8 @@ def impl_decsetenc(cls, payload, name, vtok, style=0):
     else:
         fr.f.get(name).value = py_value(vtok)
     fr.pack()
+    if bytes(before) != snap:
+        return C.hexs(fr.data) + ' EARLIER-PAYLOAD-OBJECT-CHANGED'
     return C.hexs(fr.data)
 
 
@@ -106,13 +112,21 @@ ASCII = b'abcXYZ019 .-_/'
 
 
 def rand_text(rng, n, full=False):
-    style = rng.choice(['ascii', 'ascii', 'short', 'empty', 'utf8', 'nul-mid', 'nul-lead', 'blank-edges'])
+    style = rng.choice(['ascii', 'ascii', 'short', 'empty', 'utf8', 'nul-mid', 'nul-lead', 'blank-edges', 'vocab'])
+    if style == 'vocab':
+        # what receivers really put into text fields, with the separators varied
+        w_ = rng.choice([b'PROTVER=18.00', b'PROTVER 18.00', b'PROTVER', b'PROTVER=', b'FWVER=SPG 3.01', b'FWVER=HPG 1.13=x', b'ROM BASE 2.01 (75331)',
+                         b'GPS;GLO;GAL;BDS', b'SBAS;IMES;QZSS', b'MOD=NEO-M8L', b'=', b'==', b'EXT CORE 3.01 (111141)', b'00080000', b'GP', b';', b'A=B=C'])
+        return (w_ + bytes(n))[:n]
     if style == 'nul-lead' and n >= 2:
         # NULs in FRONT of the text are characters of the field (only trailing NULs are padding)
         k = rng.randrange(1, n)
         return (bytes(k) + bytes(rng.choice(ASCII.replace(b' ', b'')) for _ in range(rng.randrange(1, n - k + 1))) + bytes(n))[:n]
     if style == 'blank-edges' and n >= 3:
-        body = rng.choice([b' ', b'\t', b'\r\n']) + bytes(rng.choice(ASCII) for _ in range(rng.randrange(0, n - 2))) + rng.choice([b' ', b'\t', b'\n', b'\xc2\xa0'])
+        lead, trail = rng.choice([b' ', b'\t', b'\r\n']), rng.choice([b' ', b'\t', b'\n', b'\xc2\xa0'])
+        if len(lead) + len(trail) > n:
+            lead, trail = b' ', b' '
+        body = lead + bytes(rng.choice(ASCII) for _ in range(rng.randrange(0, n - len(lead) - len(trail) + 1))) + trail      # never cuts a character
         return (body + bytes(n))[:n]
     if style == 'empty':
         return bytes(n)
@@ -120,7 +134,7 @@ def rand_text(rng, n, full=False):
         k = rng.randrange(0, n + 1)
         return bytes(rng.choice(ASCII) for _ in range(k)) + bytes(n - k)
     if style == 'utf8' and n >= 2:
-        s = 'é' if n < 3 else rng.choice(['é', '€', 'ü'])
+        s = 'é' if n < 3 else rng.choice(['é', '€', 'ü', 'e\u0301', 'A\u030a', '\u212b', 'o\u0308'])      # composed and DEcomposed forms: the bytes decide
         b = s.encode()
         k = rng.randrange(0, n - len(b) + 1)
         return (bytes(rng.choice(ASCII) for _ in range(k)) + b + bytes(n))[:n]
